@@ -508,4 +508,82 @@ theorem inv0_run (st : St) (hI : Inv0 st) (ops : List Op) : Inv0 (run st ops) :=
   | nil => exact hI
   | cons op ops ih => exact ih _ (inv0_step st hI op)
 
+/-! ### reconciliation of queued forwards -/
+
+theorem pendingForwardMatches_iff (a b c d : Nat) : pendingForwardMatches a b c d = true ↔ a = c ∧ b = d := by
+  simp [pendingForwardMatches]
+
+theorem dedupMatches_iff (a b : Nat) : dedupMatches a b = true ↔ a = b := by simp [dedupMatches]
+
+theorem mem_reconcile (q mons : List HtlcRef) (f : HtlcRef) :
+    f ∈ reconcile q mons ↔ f ∈ q ∧ ∀ h ∈ mons, pendingForwardMatches f.chan f.id h.chan h.id = false := by
+  unfold reconcile
+  induction mons generalizing q with
+  | nil => simp
+  | cons h hs ih =>
+    rw [List.foldl_cons, ih]
+    simp only [reconcileOne, List.mem_filter, List.mem_cons, forall_eq_or_imp, Bool.not_eq_true', and_assoc]
+
+theorem mem_decodeRefs (m : List (Nat × List Nat)) (r : HtlcRef) :
+    r ∈ decodeRefs m ↔ ∃ e ∈ m, e.1 = r.chan ∧ r.id ∈ e.2 := by
+  unfold decodeRefs
+  rw [List.mem_flatMap]
+  constructor
+  · rintro ⟨e, he, hr⟩
+    obtain ⟨i, hi, rfl⟩ := List.mem_map.mp hr
+    exact ⟨e, he, rfl, hi⟩
+  · rintro ⟨e, he, h1, h2⟩
+    refine ⟨e, he, List.mem_map.mpr ⟨r.id, h2, ?_⟩⟩
+    cases r; simp_all
+
+theorem mem_decodeRefs_one (m : List (Nat × List Nat)) (h r : HtlcRef) :
+    r ∈ decodeRefs (dedupDecodeOne m h) ↔ r ∈ decodeRefs m ∧ ¬ (r.chan = h.chan ∧ dedupMatches r.id h.id = true) := by
+  rw [mem_decodeRefs, mem_decodeRefs]
+  unfold dedupDecodeOne
+  constructor
+  · rintro ⟨e', he', h1, h2⟩
+    rw [List.mem_filter, List.mem_map] at he'
+    obtain ⟨⟨e, he, rfl⟩, _⟩ := he'
+    by_cases hc : e.1 = h.chan
+    · simp only [hc, if_true] at h1 h2
+      rw [List.mem_filter] at h2
+      refine ⟨⟨e, he, by rw [hc]; exact h1, h2.1⟩, ?_⟩
+      rintro ⟨_, hm⟩
+      have := h2.2; simp [hm] at this
+    · simp only [hc, if_false] at h1 h2
+      refine ⟨⟨e, he, h1, h2⟩, ?_⟩
+      rintro ⟨hrc, _⟩
+      exact hc (h1.trans hrc)
+  · rintro ⟨⟨e, he, h1, h2⟩, hn⟩
+    by_cases hc : e.1 = h.chan
+    · have hm : dedupMatches r.id h.id = false := by
+        cases hx : dedupMatches r.id h.id with
+        | false => rfl
+        | true => exact absurd ⟨h1.symm.trans hc, hx⟩ hn
+      refine ⟨(e.1, e.2.filter (fun i => !dedupMatches i h.id)), ?_, h1, ?_⟩
+      · rw [List.mem_filter]
+        refine ⟨List.mem_map.mpr ⟨e, he, by simp [hc]⟩, ?_⟩
+        have : r.id ∈ e.2.filter (fun i => !dedupMatches i h.id) := by
+          rw [List.mem_filter]; exact ⟨h2, by simp [hm]⟩
+        cases hl : e.2.filter (fun i => !dedupMatches i h.id) with
+        | nil => rw [hl] at this; cases this
+        | cons a l => simp
+      · rw [List.mem_filter]; exact ⟨h2, by simp [hm]⟩
+    · refine ⟨e, ?_, h1, h2⟩
+      rw [List.mem_filter]
+      refine ⟨List.mem_map.mpr ⟨e, he, by simp [hc]⟩, ?_⟩
+      cases hl : e.2 with
+      | nil => rw [hl] at h2; cases h2
+      | cons a l => simp
+
+theorem mem_decodeRefs_dedupDecode (m : List (Nat × List Nat)) (mons : List HtlcRef) (r : HtlcRef) :
+    r ∈ decodeRefs (dedupDecode m mons) ↔
+      r ∈ decodeRefs m ∧ ∀ h ∈ mons, ¬ (r.chan = h.chan ∧ dedupMatches r.id h.id = true) := by
+  unfold dedupDecode
+  induction mons generalizing m with
+  | nil => simp
+  | cons h hs ih =>
+    rw [List.foldl_cons, ih, mem_decodeRefs_one]
+    simp only [List.mem_cons, forall_eq_or_imp, and_assoc]
+
 end Ldk.Restart
